@@ -474,6 +474,33 @@ func (e *emitter) c15Conditions(t *translator, s *source) {
 	e.c15Lift(t, s, "TotalWeights: negative weight counts as zero", c15IfCond(s, tw, "node.Weight"), true, "condNegWeight", []string{"w"}, map[string]string{"node.Weight": "w"})
 }
 
+// c15DispatchArgs: for every method of recvType in rel, the argument of each call of `callee`
+// (`cs.getRedis(key)`): the argument list as written.
+func c15DispatchArgs(s *source, rel, callee string) []string {
+	f := s.file(rel)
+	if f == nil {
+		return []string{"MISSING " + rel}
+	}
+	var out []string
+	for _, d := range f.Decls {
+		fd, ok := d.(*ast.FuncDecl)
+		if !ok || fd.Body == nil {
+			continue
+		}
+		ast.Inspect(fd.Body, func(n ast.Node) bool {
+			if c, ok := n.(*ast.CallExpr); ok && s.src(c.Fun) == callee {
+				var args []string
+				for _, a := range c.Args {
+					args = append(args, s.src(a))
+				}
+				out = append(out, strings.Join(args, ","))
+			}
+			return true
+		})
+	}
+	return out
+}
+
 func init() {
 	register("C15", func(s *source, e *emitter) {
 		const f = "core/hash/consistenthash.go"
@@ -513,6 +540,17 @@ func init() {
 		// the users of the ring
 		e.stringList("cacheUsers", "ring construction and dispatch in core/stores/cache/cache.go", c15Users(s, "core/stores/cache/cache.go", "New"))
 		e.stringList("kvUsers", "ring construction and dispatch in core/stores/kv/store.go", c15Users(s, "core/stores/kv/store.go", "NewStore"))
+		e.stringList("kvDispatchArgs", "argument of every cs.getRedis call in core/stores/kv/store.go, per method", c15DispatchArgs(s, "core/stores/kv/store.go", "cs.getRedis"))
+		e.stringList("kvGetRedisBody", "getRedis", func() []string {
+			fd := s.findFunc("core/stores/kv/store.go", "clusterStore.getRedis")
+			var b []string
+			if fd != nil {
+				for _, st := range fd.Body.List {
+					b = append(b, s.src(st))
+				}
+			}
+			return b
+		}())
 		e.shapeDef(s, "core/stores/cache/cachenode.go", "cacheNode.String", "cacheNodeStringShape")
 		e.stringList("cacheNodeStringExprs", "repr of a cache node", c15Exprs(s, s.findFunc("core/stores/cache/cachenode.go", "cacheNode.String")))
 		e.stringList("redisStringExprs", "repr of a redis node", c15Exprs(s, s.findFunc("core/stores/redis/redis.go", "Redis.String")))
